@@ -98,10 +98,155 @@ static double interp_call(Interpolation& I, const ICall& c)
 // same answer: bit-identical, or both NaN
 static bool same_answer(double a, double b) { return (std::isnan(a) && std::isnan(b)) || (a == b && std::signbit(a) == std::signbit(b)); }
 
+// ---- requests made from inside a call-back, abandoned calls, several requests in one process
+struct Abandon
+{
+};
+// what the process has printed so far does not count as the diagnostic of the request that follows
+static void reset_diag()
+{
+	fflush(stdout);
+	fflush(stderr);
+	std::cout.flush();
+	std::cerr.flush();
+	if(ftruncate(2, 0) != 0) {}
+	lseek(2, 0, SEEK_SET);
+}
+static void handler(vh::Reader& r, vh::Out& o);
+// one sub-case, starting at the reader's position (its own output is dropped; it returns, exits the process, or throws Abandon)
+static void run_sub(vh::Reader& r)
+{
+	vh::Out dummy;
+	reset_diag();
+	handler(r, dummy);
+	if(dummy.s.str().find("HARNESSERR") != std::string::npos)
+	{
+		fprintf(stderr, "harness: %s\n", dummy.s.str().c_str());
+		_exit(77);
+	}
+}
+static void skip_sub(vh::Reader& r)
+{
+	while(r.more() && r.t[r.i] != ";;")
+		r.i++;
+}
+
+static int depth = 0;
 static void handler(vh::Reader& r, vh::Out& o)
 {
 	std::string op = r.word();
-	if(op == "vec_at")
+	if((op == "session" || op == "nested") && depth == 0)
+	{
+		// a case that may leave the process in another state than it found it (abandoned calls, stream state, statics) runs in a process of
+		// its own, forked from this worker: what it does cannot reach the cases that follow, and its outcome becomes the outcome of this worker
+		reset_diag();
+		pid_t pid = fork();
+		if(pid == 0)
+		{
+			depth = 1;
+			alarm(20);
+			r.i = 0;
+			vh::Out inner;
+			handler(r, inner);
+			_exit(inner.s.str() == "OK" ? 42 : 77);
+		}
+		int st = 0;
+		waitpid(pid, &st, 0);
+		if(WIFEXITED(st) && WEXITSTATUS(st) == 42)
+		{
+			r.i = r.t.size();
+			o.w("OK");
+			return;
+		}
+		if(WIFEXITED(st))
+			_exit(WEXITSTATUS(st));
+		signal(WTERMSIG(st), SIG_DFL);
+		raise(WTERMSIG(st));
+		_exit(70);
+	}
+	if(op == "throw")
+		throw Abandon();
+	else if(op == "session")
+	{
+		// several requests, one after the other, in this process
+		long n = r.integer();
+		for(long k = 0; k < n; k++)
+		{
+			if(k > 0 && r.word() != ";;")
+			{
+				o.w("HARNESSERR session_separator");
+				return;
+			}
+			try
+			{
+				run_sub(r);
+			}
+			catch(const Abandon&)
+			{
+				skip_sub(r);
+			}
+		}
+		o.w("OK");
+		return;
+	}
+	else if(op == "nested")
+	{
+		// a library entry point whose call-back, on its k-th evaluation, makes the request of the sub-case (or throws)
+		std::string e = r.word(), m;
+		double l[6]	  = {0, 0, 0, 0, 0, 0};
+		std::shared_ptr<vh::FExpr> fe;
+		if(e == "root")
+		{
+			fe	 = vh::parse_fexpr(r);
+			l[0] = r.num();
+			l[1] = r.num();
+		}
+		else
+		{
+			m	  = r.word();
+			int d = (e == "int1") ? 2 : (e == "int2" ? 4 : (e == "int3" ? 6 : -1));
+			if(d < 0)
+			{
+				o.w("HARNESSERR unknown_entry");
+				return;
+			}
+			for(int k = 0; k < d; k++)
+				l[k] = r.num();
+		}
+		long k		  = r.integer();
+		size_t sub_at = r.i;
+		long calls	  = 0;
+		auto cb		  = [&]() {
+			  if(++calls == k)
+			  {
+				  vh::Reader rr = r;
+				  rr.i			= sub_at;
+				  run_sub(rr);
+			  }
+		};
+		bool mc = (m == "Monte-Carlo" || m == "Vegas" || m == "Miser");
+		try
+		{
+			if(e == "int1")
+				sink = Integrate([&](double x) { cb(); return 1.0 + x * x; }, l[0], l[1], m);
+			else if(e == "int2")
+				sink = Integrate_2D([&](double x, double y) { cb(); return 1.0 + x + 2.0 * y; }, l[0], l[1], l[2], l[3], m, mc ? 400 : 0);
+			else if(e == "int3")
+				sink = Integrate_3D([&](double x, double y, double z) { cb(); return 1.0 + x + 2.0 * y - z; }, l[0], l[1], l[2], l[3], l[4], l[5], m, mc ? 400 : (m == "Gauss-Legendre_2" ? 4 : (m == "Gauss-Kronrod" ? 1 : 0)));
+			else
+			{
+				auto f = vh::fun1(fe);
+				sink   = Find_Root([&](double x) { cb(); return f(x); }, l[0], l[1], 1e-6);
+			}
+		}
+		catch(const Abandon&)
+		{
+		}
+		skip_sub(r);
+		o.w("OK");
+		return;
+	}
+	else if(op == "vec_at")
 	{
 		long d = r.integer(), i = r.integer();
 		Vector v((unsigned int) d, 1.0);
